@@ -164,7 +164,7 @@ def r14_1(prog: Program, chk: Check) -> None:
         "R14.1",
         "equal implies equal hash: effective __eq__/__hash__ per class computed with the dataclass decision "
         "table (eq/frozen/unsafe_hash/explicit definitions, compare=/hash= flags, NamedTuple)",
-        floor=55,
+        floor=30,
     )
     classes: List[str] = []
     for root in HASHABLE_ROOTS:
@@ -266,7 +266,7 @@ def r14_2(prog: Program, chk: Check) -> None:
     chk.rule(
         "R14.2",
         "substitute_typevars and walk_values mention every Value-typed field of every value/extension class",
-        floor=40,
+        floor=30,
     )
     roots = ["Value", "Extension"]
     extra = ["KVPair", "TypedDictEntry"]
